@@ -1,4 +1,5 @@
 import MlModel.Lemmas.Pipe
+import MlModel.Lemmas.Iter
 /-!
 # C12 — error skipping drops only failing elements; otherwise the first error surfaces
 
@@ -9,6 +10,23 @@ is terminal; with skipping on exactly the errors outside `_IGNORE_ERROR_TYPES` a
 set_option linter.unusedSimpArgs false
 namespace MlModel.C12
 open MlModel.Pipe MlModel.Iter
+
+/-! ## the two kinds of iterator -/
+
+/-- **C12_iter_kinds.**  The iterator model (DESIGN §3): `drain next fuel s` is what successive
+`next()` calls return before `StopIteration`.  A *resumable* iterator (class based, `map`, `zip`,
+`itertools`) delivers every event, also those behind an error; a *generator* object ends at the
+first exception that passes through it (its events are cut after the first error) — this is where
+finding F5 lives; and the `iter_ignore_error` generator (`ignoreNext`) turns skippable errors into
+nothing (or into its `error_return`) and ends at the first other error.  The pipeline model composes
+the event-list functions on the right-hand sides. -/
+theorem C12_iter_kinds {α : Type} (evs : List (Ev α)) (fuel : Nat) (h : evs.length < fuel) :
+    drain cursorNext fuel evs = evs ∧
+    drain (genNext cursorNext) fuel (some evs) = cutAfterErr evs ∧
+    (∀ f : α → Ev α, drain (mapNext f) fuel evs = mapEv f evs) ∧
+    (∀ r, drain (ignoreNext r) fuel evs = ignoreErr r evs) :=
+  ⟨drain_cursor evs fuel h, by rw [drain_gen, drain_cursor evs fuel h],
+   fun f => drain_map f evs fuel h, fun r => drain_ignore r evs fuel h⟩
 
 /-! ## skipping on -/
 
@@ -68,11 +86,16 @@ theorem C12_skip (op : Op) (s : Nat) (src : List (Ev Val))
           | none => simp [Ref.opEvents, skipped, hs, hw, ih]
           | some x => simp [Ref.opEvents, skipped, hs, hw, ih]
 
-/-- **C12_none_lost_after.**  A record whose processing raises a skippable error vanishes and the
-rest of the stream is processed exactly as if the stream had started behind it (only the function's
-private state has moved on): nothing after a failing element is dropped.  Stated for the real
-runner's iterator of one un-batched operator. -/
-theorem C12_none_lost_after (op : Op) (h : OpOK op) (r : Val) (rest : List (Ev Val))
+/-- **C12_none_lost_after_partial.**  A record whose processing raises a skippable error vanishes
+and the rest of the stream is processed exactly as if the stream had started behind it (only the
+function's private state has moved on): nothing after a failing element is dropped.  Stated for the
+real runner's iterator of one un-batched operator.
+
+Full-strength statement (every operator, also with batch sizes): **false** on the real code for
+`assign` with `batch_size` — every record after the first failing call is silently lost (finding
+F5, `Witness/C12.lean: C12_F5_witness`); not attempted for `apply` / `select` with batch sizes
+(there the failing call drops its whole batch of rows and the re-batchers stay alive). -/
+theorem C12_none_lost_after_partial (op : Op) (h : OpOK op) (r : Val) (rest : List (Ev Val))
     (hc : Ref.Clean true rest) (e : Err) (s' : Nat)
     (hfail : Ref.semCall op op.s0 r = (.error e, s')) (hskip : e.ignorable = true) :
     (Impl.opIterate true op (.ok r :: rest)).evs.map (·.ev)
@@ -112,13 +135,15 @@ theorem C12_cause (op : Op) (s : Nat) (ins : List Val) (e : Err) (s' : Nat)
     simp only [Prod.mk.injEq, Except.error.injEq] at h
     exact ⟨by rw [← h.1], k, by rw [← h.1], rfl⟩
 
-/-- **C12_first_error.**  With skipping off, for every chain of un-batched operators and every
+/-- **C12_first_error_partial.**  (Partial: operators without batch sizes, `OpOK`; what precedes the
+error when a re-batcher holds rows back is not stated.  "Helper threads end" is property C13: the
+check observes it, the model has no threads.)  With skipping off, for every chain of un-batched operators and every
 source: the caller observes exactly the reference's outputs up to its first error and then that
 error (`C12_cause`: a failing function surfaces as `ValueError` with the original as cause);
 nothing is produced after it (the runner's event list is the outputs followed by that one
 error); and every sink has been closed exactly once (the model's reading of `finally:` in
 `Sink.iterate`, tied to the code by the correspondence). -/
-theorem C12_first_error (ops : List Op) (hops : ∀ op ∈ ops, OpOK op) (src : List (Ev Val)) :
+theorem C12_first_error_partial (ops : List Op) (hops : ∀ op ∈ ops, OpOK op) (src : List (Ev Val)) :
     ((Impl.run false ops src).out, (Impl.run false ops src).err)
         = observe (Ref.chainEvents false ops src) ∧
     Impl.topEvents false ops src
@@ -130,5 +155,32 @@ theorem C12_first_error (ops : List Op) (hops : ∀ op ∈ ops, OpOK op) (src : 
   have := observe_errLast _ (chainEvents_false_errLast ops src)
   simp only [Impl.run, hspec]
   exact this
+
+/-! ## non-vacuity -/
+
+/-- `apply(lambda a: 10 // a ...)`-like: fails with a skippable `ValueError` on `a = 0` -/
+def exFail : Op :=
+  { kind := .apply, inKeys := [.name "a"], outKeys := [.key (.name "y")],
+    fn := fun s args _ => (match args with
+      | [.int 0] => .error .value
+      | [.int i] => .ok (.int (i + 1))
+      | _ => .error .type, s) }
+
+def exSrc : List (Ev Val) :=
+  [.ok (.dict [("a", .int 3)]), .ok (.dict [("a", .int 0)]), .ok (.dict [("a", .int 7)])]
+
+example : OpOK exFail :=
+  ⟨⟨rfl, rfl⟩, fun k k' rest h => by simp [exFail] at h, fun h => by simp [exFail] at h⟩
+
+example : Ref.CleanRun true [exFail] exSrc := cleanRunB_sound _ _ _ (by decide +kernel)
+
+/-- skipping on: the failing middle element is gone, the one behind it is not;
+skipping off: one output, then the error with the original as cause -/
+example : (Impl.run true [exFail] exSrc).out.length = 2 ∧ (Impl.run true [exFail] exSrc).err.isNone = true ∧
+    (Impl.run false [exFail] exSrc).out.length = 1 ∧
+    (Impl.run false [exFail] exSrc).err = some { kind := .value, cause := some .value } := by
+  decide +kernel
+
+example : (Ref.semCall exFail 0 (.dict [("a", .int 0)])).2 = 0 := by decide +kernel
 
 end MlModel.C12
